@@ -6,6 +6,7 @@
 #define VERIF_C11_ROUTES_H_
 #include <gudhi/ripser.h>
 #include <memory>
+#include <climits>
 #include <sys/wait.h>
 #include <sys/time.h>
 #include "c11_model.h"
@@ -110,7 +111,7 @@ template <class T> MSparse<T> sparse_from_edges(const Input& in, vh::Rng& r) {
 }
 template <class T> MEuclid<T> euclid_from_points(const Input& in) {
   std::vector<std::vector<T>> p;
-  for (auto& q : in.pts) { std::vector<T> x; for (long c : q) x.push_back((T)c); p.push_back(x); }
+  for (auto& q : in.pts) { std::vector<T> x; for (long c : q) x.push_back((T)c / (T)in.den); p.push_back(x); }   // exact: den is a power of two
   return MEuclid<T>(std::move(p));
 }
 
@@ -126,17 +127,31 @@ template <class T> struct Ctx {
   Diagram pipeline;
   long routes_ok = 0;
   long fold_ess0 = -1;       // >= 0: the intervals (0;0,inf) are folded into this expected count (huge inputs)
+  // dim_max as handed to ripser_auto / ripser when it differs from dim_max (values above n-2, e.g. INT_MAX as the Python
+  // binding passes: the public entry points clamp to n-2, so the expectation is the one for dim_max = n-2); the explicit
+  // help2 routes always get dim_max itself
+  int dim_arg = -1;
+  bool isolate_all = false;    // every route runs in a forked child (configs whose known failure mode is a memory error)
+  bool refuse_ok_all = false;  // the documented std::overflow_error refusal is an accepted outcome of every route
+  std::string widecls;         // class of the case inside a "wide" config (counter prefix)
+  unsigned route_mask = ~0u;   // routes engine_routes may run (bit = Route); used to keep the slowest cases short
 };
+template <class T> int engine_dim(const Ctx<T>& x, int rt) { return (rt <= 1 && x.dim_arg >= 0) ? x.dim_arg : x.dim_max; }   // rt <= R_DIRECT
+template <class T> int sink_dim(const Ctx<T>& x) { return std::max(x.dim_max, x.dim_arg); }
 
 template <class T> std::string base_sig(const Ctx<T>& x, const std::string& route, const std::string& variant) {
   return "form=" + x.form + ",val=" + ValName<T>::get() + ",route=" + route + ",ctor=" + variant + ",thr=" + x.thrcls + ",p=" + pclass(x.p) + "," + x.cfgkind;
 }
 
+template <class T, class F>
+bool check_route_isolated(Ctx<T>& x, const std::string& route, const std::string& variant, F&& f, bool may_refuse = false);
+
 // runs f(od, op) (which builds the matrix and calls the engine), then compares.  Returns false when the case must stop.
 template <class T, class F>
 bool check_route(Ctx<T>& x, const std::string& route, const std::string& variant, bool may_refuse, F&& f) {
+  if (x.isolate_all) return check_route_isolated<T>(x, route, variant, f, may_refuse || x.refuse_ok_all);
   vh::Case& c = x.c;
-  Sink<T> s(x.dim_max);
+  Sink<T> s(sink_dim(x));
   s.fold = x.fold_ess0 >= 0;
   c.log("run route=" + route + " ctor=" + variant);
   c.count("route." + x.form + "." + route);
@@ -179,8 +194,9 @@ bool check_route(Ctx<T>& x, const std::string& route, const std::string& variant
 // (a copy that outlives its original, the converting constructor of the upper layout).  A sanitizer report / crash of
 // the child becomes an ordinary violation record with a descriptive signature, the parent (and its counters) live on.
 template <class T, class F>
-bool check_route_isolated(Ctx<T>& x, const std::string& route, const std::string& variant, F&& f) {
+bool check_route_isolated(Ctx<T>& x, const std::string& route, const std::string& variant, F&& f, bool may_refuse) {
   vh::Case& c = x.c;
+  may_refuse = may_refuse || x.refuse_ok_all;
   c.log("run (forked child) route=" + route + " ctor=" + variant);
   c.count("route." + x.form + "." + route);
   c.count("ctor." + x.form + "." + variant);
@@ -196,12 +212,15 @@ bool check_route_isolated(Ctx<T>& x, const std::string& route, const std::string
     struct itimerval it = {}; it.it_value.tv_sec = kCpuBudgetSeconds; signal(SIGVTALRM, SIG_DFL); setitimer(ITIMER_VIRTUAL, &it, nullptr);
     int code = 0; std::string msg;
     try {
-      Sink<T> s(x.dim_max);
+      Sink<T> s(sink_dim(x));
       f(s.od, s.op);
       std::sort(s.out.begin(), s.out.end());
       if (s.pair_before_dim || s.dim_out_of_range) { code = 4; msg = "protocol"; }
       else { std::string dc = diff_class(s.out, x.exp.dgm); if (!dc.empty()) { code = 3; msg = dc + "\n ripser : " + oracle::show(s.out) + "\n oracle : " + oracle::show(x.exp.dgm); } }
-    } catch (const std::exception& e) { code = 5; msg = e.what(); }
+    } catch (const std::overflow_error& e) { code = may_refuse ? 6 : 7; msg = e.what(); }
+    catch (const std::length_error& e) { code = 8; msg = e.what(); }
+    catch (const std::bad_alloc& e) { code = 9; msg = e.what(); }
+    catch (const std::exception& e) { code = 5; msg = e.what(); }
     ssize_t w = ::write(fds[1], msg.data(), msg.size()); (void)w;
     _exit(code);
   }
@@ -210,9 +229,24 @@ bool check_route_isolated(Ctx<T>& x, const std::string& route, const std::string
   while ((got = ::read(fds[0], buf, sizeof buf)) > 0) if (text.size() < (1u << 16)) text.append(buf, (size_t)got);
   close(fds[0]);
   int st = 0; waitpid(pid, &st, 0);
+  if (WIFEXITED(st) && WEXITSTATUS(st) == 6) {   // documented refusal: the encoding (or the dimension type) does not fit
+    c.count("enc.refused." + route);
+    if (x.isolate_all) c.count("wide." + x.widecls + ".refused." + route);
+    return true;
+  }
   c.count("cmp.intervals"); c.count("cmp.isolated");
-  if (WIFEXITED(st) && WEXITSTATUS(st) == 0) { x.routes_ok++; return true; }
+  if (WIFEXITED(st) && WEXITSTATUS(st) == 0) {
+    x.routes_ok++;
+    if (x.isolate_all && x.exp.has_finite_high) c.count("nt." + x.form + "." + route);
+    if (x.isolate_all) c.count("wide." + x.widecls + ".answered." + route);
+    return true;
+  }
   std::string sig = base_sig(x, route, variant);
+  if (WIFEXITED(st) && WEXITSTATUS(st) >= 7 && WEXITSTATUS(st) <= 9) {
+    const char* what[] = {"overflow_error", "length_error", "bad_alloc"};
+    c.violation("ripser.exception", sig + "," + what[WEXITSTATUS(st) - 7] + ",isolated", std::string("unexpected std::") + what[WEXITSTATUS(st) - 7] + ": " + text);
+    return false;
+  }
   if (WIFEXITED(st) && WEXITSTATUS(st) == 3) { c.violation("ripser.intervals", sig + "," + text.substr(0, text.find('\n')) + ",isolated", text); return false; }
   if (WIFEXITED(st) && WEXITSTATUS(st) == 4) { c.violation("ripser.protocol", sig + ",isolated", text); return false; }
   if (WIFEXITED(st) && WEXITSTATUS(st) == 5) { c.violation("ripser.exception", sig + ",isolated", text); return false; }
@@ -221,14 +255,15 @@ bool check_route_isolated(Ctx<T>& x, const std::string& route, const std::string
   std::string kind = WIFSIGNALED(st) && WTERMSIG(st) == SIGVTALRM ? "cpu_budget_exceeded" : "other";
   for (const char* k : kinds) if (text.find(k) != std::string::npos) { kind = k; break; }
   for (char& ch : kind) if (ch == ' ') ch = '_';
-  c.violation("ripser.memory_safety", "form=" + x.form + ",ctor=" + variant + ",child_died," + kind,
+  c.violation("ripser.memory_safety", "form=" + x.form + ",ctor=" + variant + ",child_died," + kind + (x.isolate_all ? ",route=" + route + ",p=" + pclass(x.p) + "," + x.cfgkind : std::string()),
               "the forked child running this route died (" + (WIFSIGNALED(st) ? "signal " + vh::str(WTERMSIG(st)) : "exit " + vh::str(WEXITSTATUS(st))) + ")\n" + text.substr(0, 2500));
   return false;
 }
 
 // the third opinion, once per case (small primes only: Field_Zp builds its inverse table in O(p^2))
+const long kPipelineBelow = 256;
 template <class T> bool run_pipeline(Ctx<T>& x, const Input& graph_in, double thr) {
-  if (x.p > 13) { x.c.count("pipeline.skipped_big_prime"); return true; }
+  if (x.p >= kPipelineBelow) { x.c.count("pipeline.skipped_big_prime"); return true; }
   x.c.log("run gudhi Rips_complex->Simplex_tree->Persistent_cohomology pipeline");
   x.pipeline = gudhi_pipeline(graph_in.D, thr, x.dim_max, (int)x.p);
   x.have_pipeline = true;
@@ -260,9 +295,10 @@ bool engine_routes(Ctx<T>& x, const std::string& variant, T thrT, bool big, bool
   for (int rt = 0; rt < R_COUNT; ++rt) {
     if (only_route >= 0 && rt != only_route) continue;
     if (rt == R_AUTO && !with_auto) continue;
+    if (!(x.route_mask >> rt & 1u)) continue;
     bool may_refuse = big && rt >= R_BF64;
     if (!check_route<T>(x, route_name(rt), variant, may_refuse, [&](DimCb<T>& od, PairCb<T>& op) {
-          call_engine<T, M>(build(), rt, x.dim_max, thrT, (unsigned)x.p, od, op);
+          call_engine<T, M>(build(), rt, engine_dim(x, rt), thrT, (unsigned)x.p, od, op);
         })) return false;
   }
   return true;
@@ -276,6 +312,27 @@ bool orphan_copy_route(Ctx<T>& x, T thrT, Build&& build) {
     M b(*a);
     a.reset();
     call_engine<T, M>(std::move(b), R_DIRECT, x.dim_max, thrT, (unsigned)x.p, od, op);
+  });
+}
+
+// copy / move ASSIGNMENT of the compressed layouts: the target held another matrix (of another size) before, the source
+// is destroyed before the target is used.  Also a self-assignment, which must leave the value unchanged.
+template <class T, class M, class Build>
+bool assign_route(Ctx<T>& x, T thrT, vh::Rng& r, Build&& build) {
+  unsigned mode = (unsigned)r.below(5);
+  int kind = mode < 2 ? 0 : mode < 4 ? 1 : 2;
+  const char* names[] = {"copy_assigned_outlives_original", "move_assigned", "copy_then_self_assigned"};
+  int n2 = 2 + (int)r.below(8);
+  int rt = (int)r.below(2);   // ripser_auto or ripser
+  x.c.log("assignment target held a " + vh::str(n2) + "-point matrix before");
+  return check_route_isolated<T>(x, route_name(rt), names[kind], [&](DimCb<T>& od, PairCb<T>& op) {
+    std::unique_ptr<M> a(new M(build()));
+    M b(std::vector<T>((size_t)n2 * (n2 - 1) / 2, (T)7));
+    if (kind == 0) b = *a;
+    else if (kind == 1) b = std::move(*a);
+    else { b = *a; M& self = b; b = self; }
+    a.reset();
+    call_engine<T, M>(std::move(b), rt, x.dim_max, thrT, (unsigned)x.p, od, op);
   });
 }
 
@@ -304,7 +361,8 @@ template <class T> struct FormLower {
     if (r.chance(1, 3)) {   // what the command-line tool does with an upper-distance file
       if (!engine_routes<T, MLower<T>>(x, "from_upper", thrT, big, true, r, (int)r.below(R_COUNT), [&] { return MLower<T>(MUpper<T>(upper_vector<T>(in))); })) return;
     }
-    if (r.chance(1, 25)) orphan_copy_route<T, MLower<T>>(x, thrT, [&] { return MLower<T>(lower_vector<T>(in)); });
+    if (r.chance(1, 25)) { if (!orphan_copy_route<T, MLower<T>>(x, thrT, [&] { return MLower<T>(lower_vector<T>(in)); })) return; }
+    if (r.chance(1, 12)) assign_route<T, MLower<T>>(x, thrT, r, [&] { return MLower<T>(lower_vector<T>(in)); });
   }
 };
 
@@ -315,12 +373,24 @@ template <class T> struct FormUpper {
     T thrT = thr_value<T>(thr);
     if (!engine_routes<T, MUpper<T>>(x, "from_vector", thrT, big, true, r, -1, [&] { return MUpper<T>(upper_vector<T>(in)); })) return;
     if (r.chance(1, 25)) { if (!orphan_copy_route<T, MUpper<T>>(x, thrT, [&] { return MUpper<T>(upper_vector<T>(in)); })) return; }
+    if (r.chance(1, 12)) { if (!assign_route<T, MUpper<T>>(x, thrT, r, [&] { return MUpper<T>(upper_vector<T>(in)); })) return; }
     if (r.chance(1, 25)) {  // the converting constructor of the upper layout
       int rt = (int)r.below(2);   // ripser_auto or ripser (never refused)
       check_route_isolated<T>(x, route_name(rt), "from_matrix", [&](DimCb<T>& od, PairCb<T>& op) {
         call_engine<T, MUpper<T>>(MUpper<T>(SrcMat<T>{&in}), rt, x.dim_max, thrT, (unsigned)x.p, od, op);
       });
     }
+  }
+};
+
+// a user-defined matrix type of category Tag_dense handed to the engine as it is (what the Python binding does with a
+// numpy array): the engine is instantiated on a type that is not one of the library's own containers
+template <class T> struct FormUser {
+  static const char* name() { return "user"; }
+  static const bool sparse = false, cloud_only = false;
+  static void routes(Ctx<T>& x, const Input& in, const Threshold& thr, vh::Rng& r, bool big) {
+    T thrT = thr_value<T>(thr);
+    engine_routes<T, SrcMat<T>>(x, "user_matrix_direct", thrT, big, true, r, -1, [&] { return SrcMat<T>{&in}; });
   }
 };
 
@@ -350,7 +420,7 @@ template <class T> struct FormEuclid {
     T thrT = thr_value<T>(thr);
     // the point cloud itself goes through ripser_auto only ("do not feed this directly to ripser")
     if (!check_route<T>(x, "auto", "points", false, [&](DimCb<T>& od, PairCb<T>& op) {
-          rp::ripser_auto(euclid_from_points<T>(in), x.dim_max, thrT, (unsigned)x.p, od, op);
+          rp::ripser_auto(euclid_from_points<T>(in), engine_dim(x, R_AUTO), thrT, (unsigned)x.p, od, op);
         })) return;
     // what the command-line tool does: points + threshold -> sparse ; points alone -> compressed lower
     if (!engine_routes<T, MSparse<T>>(x, "sparse_from_points", thrT, big, false, r, big || r.chance(1, 2) ? -1 : 1 + (int)r.below(R_COUNT - 1),
@@ -363,9 +433,10 @@ template <class T> struct FormEuclid {
 // ------------------------------------------------------------------------------------------------ cases
 template <class T, class Form> void common_counters(Ctx<T>& x, const Input& in) {
   vh::Case& c = x.c;
-  c.count("gen." + in.gen); c.count("thr." + x.thrcls); c.count("p." + vh::str(x.p));
-  c.count("n." + std::string(x.n <= 4 ? "2_4" : x.n <= 7 ? "5_7" : x.n <= 10 ? "8_10" : x.n <= 20 ? "11_20" : x.n <= 40 ? "21_40" : "129plus"));
-  c.count("dimmax." + std::string(x.dim_max == 0 ? "0" : x.dim_max == 1 ? "1" : x.dim_max == 2 ? "2" : x.dim_max <= 4 ? "3_4" : x.dim_max <= 8 ? "5_8" : "9plus"));
+  c.count("gen." + in.gen); c.count("thr." + x.thrcls); c.count("p." + pname(x.p));
+  if (!in.pts.empty()) c.count(in.den == 1 ? "cloud.integer_coordinates" : "cloud.noninteger_coordinates");
+  c.count("n." + std::string(x.n <= 4 ? "2_4" : x.n <= 7 ? "5_7" : x.n <= 10 ? "8_10" : x.n <= 20 ? "11_20" : x.n <= 40 ? "21_40" : x.n <= 128 ? "41_128" : "129plus"));
+  c.count("dimmax." + std::string(x.dim_max == 0 ? "0" : x.dim_max == 1 ? "1" : x.dim_max == 2 ? "2" : x.dim_max <= 4 ? "3_4" : x.dim_max <= 8 ? "5_8" : x.dim_max <= 60 ? "9plus" : "61plus"));
   c.count(std::string("dispatch.") + dispatch_class(x.n, x.dim_max, x.p));
   for (auto& iv : x.exp.dgm) c.count(std::string("bars.") + (iv.death == INF ? "essential" : "finite") + ".dim" + (iv.dim >= 3 ? std::string("3plus") : vh::str(iv.dim)));
   c.count("complex.simplices", x.exp.complex_size);
@@ -388,16 +459,27 @@ template <class T, class Form> void small_case(vh::Case& c) {
   x.form = Form::name(); x.cfgkind = "small";
   int n = 2 + (int)r.below(9);
   if (r.chance(1, 3)) n = 4 + (int)r.below(5);
+  // 11-13 points with dim_max <= 2 (complete complexes beyond the 2^n sweep of oracle/flag.h; mostly without threshold,
+  // so that the dense enumerators and the enclosing-radius shortcut meet more than 10 points)
+  const bool mid = r.chance(1, 10);
+  if (mid) n = 11 + (int)r.below(3);
   Input in;
   gen_small<T>(in, r, n, Form::cloud_only);
   Threshold thr = pick_threshold<T>(in, r, true);
+  if (mid && r.chance(1, 2)) { thr.none = true; thr.cls = r.chance(1, 2) ? "none_inf" : "none_max"; thr.value = INF; }
   x.n = n; x.gen = in.gen; x.thrcls = thr.cls;
   x.dim_max = (int)r.below((uint64_t)(n - 1));           // 0 .. n-2
   if (n >= 6 && r.chance(1, 2)) x.dim_max = (int)r.below(4);   // keep the interesting low dimensions frequent
   if ((in.gen == "crosspoly" || in.gen == "cloud_octa") && r.chance(1, 2)) x.dim_max = std::min(n - 2, std::max(1, n / 2 - 2 + (int)r.below(3)));
+  if (mid) x.dim_max = (int)r.below(3);
+  // dim_max above n-2 through the public entry points (they clamp it to n-2; INT_MAX is what the Python binding passes
+  // for "all dimensions"): the expectation is the complete barcode, i.e. the one for dim_max = n-2
+  if (!mid && r.chance(1, 12)) { x.dim_max = n - 2; x.dim_arg = r.chance(1, 2) ? INT_MAX : n - 1 + (int)r.below(4); }
   x.p = pick_prime(r);
   c.log(in.show());
   c.log("threshold class=" + thr.cls + " value=" + vh::str(thr.value) + " dim_max=" + vh::str(x.dim_max) + " p=" + vh::str(x.p) + " value_type=" + ValName<T>::get());
+  if (x.dim_arg >= 0) { c.log("ripser_auto / ripser are called with dim_max=" + vh::str(x.dim_arg) + " (above n-2)"); c.count(x.dim_arg == INT_MAX ? "dimarg.int_max" : "dimarg.above_n_minus_2"); }
+  if (mid) { c.count("small.n11_13"); if (thr.none) c.count("small.n11_13.no_threshold"); if (!Form::sparse && thr.none) c.count("small.n11_13.no_threshold.dense_form"); }
 
   if constexpr (Form::sparse) {
     // the edge list: either the threshold graph of the matrix, or a random subgraph of it
@@ -466,6 +548,74 @@ template <class T, class Form> void big_case(vh::Case& c) {
     if (d2 != d3) { c.count("torsion.z2_ne_z3"); c.count(x.p == 2 ? "torsion.run_with_p2" : "torsion.run_with_odd_p"); }
   }
   run_pipeline(x, edges, INF);
+  if constexpr (Form::sparse) Form::routes(x, edges, nullptr, INF, r, true);
+  else Form::routes(x, in, thr, r, true);
+  finish_case<T, Form>(x, in);
+}
+
+// ------------------------------------------------------------------------------------------------ wide inputs
+// kind 0 ("dimwide"): 126-131 vertices, dim_max from 61 up to n-2 and beyond (n-1.., INT_MAX), p in {2,3,5}.  The engine's
+//   dimension type is 8 bits wide; the accepted outcomes of every route are the correct barcode or the documented
+//   std::overflow_error refusal - never a wrong barcode, a memory error or another exception.  Every route runs in a
+//   forked child, so that a sanitizer report becomes an ordinary violation record and the counters survive.
+// kind 1 ("topclique"): 100-128 vertices with a 14-16-clique on the highest labels and dim_max = clique size - 2 or - 1.
+template <class T, class Form, int Kind> void wide_case(vh::Case& c) {
+  vh::Rng& r = c.rng;
+  CaseGuard guard;
+  Ctx<T> x{c};
+  x.form = Form::name();
+  BigInput b = Kind == 0 ? gen_dimwide(r) : gen_topclique(r);
+  Input& in = b.in;
+  const int n = in.n;
+  x.n = n; x.gen = in.gen; x.thrcls = "finite_small";
+  if (Kind == 0) {
+    unsigned k = (unsigned)r.below(10);
+    int d = k < 3 ? 61 + (int)r.below(63) : k == 3 ? 124 : k == 4 ? 125 : k == 5 ? 126 : k < 8 ? n - 2 : k == 8 ? n - 1 + (int)r.below(3) : INT_MAX;
+    const bool wider = n > 131;
+    if (wider && k < 4) d = r.chance(1, 2) ? 253 + (int)r.below(8) : 125 + (int)r.below(6);   // around the wrap of 8 bits / the edge of 7
+    x.widecls = d > n - 2 ? "dm_above_n-2" : d > 124 ? "dm_125_n-2" : "dm_61_124";
+    x.dim_max = std::min(d, n - 2);
+    if (d > n - 2) x.dim_arg = d;
+    k = (unsigned)r.below(10);
+    x.p = k < 5 ? 2 : k < 9 ? 3 : 5;
+    x.cfgkind = std::string(wider ? "dimwide_n257plus," : "dimwide,") + x.widecls;
+    if (wider) c.count("wide.n257plus");
+    x.isolate_all = true; x.refuse_ok_all = true;
+  } else {
+    x.dim_max = b.hint_dim;
+    x.p = pick_prime(r);
+    x.widecls = "topclique";
+    x.cfgkind = "topclique";
+    // for these inputs ripser and the explicit Bitfield-128 call are the same computation (the dispatcher picks
+    // Bitfield-128, Bitfield-64 cannot hold 14+ vertices of 7 bits): run ripser_auto, CNS-128 and one of those two
+    x.route_mask = (1u << R_AUTO) | (1u << R_CNS) | (r.chance(1, 2) ? (1u << R_DIRECT) : (1u << R_BF128));
+  }
+  Threshold thr; thr.cls = "finite_small"; thr.none = false; thr.value = (double)(T)b.thr;
+  Input edges = in;
+  for (int i = 0; i < n; ++i) for (int j = 0; j < i; ++j) if (in.D[i][j] > thr.value) set(edges, i, j, INF);
+  x.exp = expect(threshold_graph(edges, INF), x.dim_max, x.p, Kind == 0 ? 9000 : 70000);
+  if (x.exp.too_big) { c.count("skip.complex_too_big"); return; }
+  if (x.exp.fast_checked) {
+    c.count("oracle.fast_path_cross_checked");
+    if (!x.exp.fast_ok) { c.violation("harness.oracle_fast_path", "differs_from_oracle_simplicial_diagram", "c11::simplicial_diagram_fast disagrees with oracle::simplicial_diagram"); return; }
+  }
+  if constexpr (!Form::sparse) fill_missing(in, r, thr.value);
+  c.log((Form::sparse ? edges : in).show());
+  c.log("threshold value=" + vh::str(thr.value) + " dim_max=" + vh::str(x.dim_max) + " p=" + vh::str(x.p) + " value_type=" + ValName<T>::get() + " expected dispatcher class=" + dispatch_class(n, x.dim_max, x.p));
+  if (x.dim_arg >= 0) c.log("ripser_auto / ripser are called with dim_max=" + vh::str(x.dim_arg) + " (above n-2)");
+  common_counters<T, Form>(x, in);
+  c.count("wide." + x.widecls);
+  c.count("wide.top_clique." + vh::str(x.exp.top_clique));
+  if (Kind == 1) {
+    // coverage accounting only: the largest combinatorial-number-system index is C(n-1, k) + ... for the top simplex of the
+    // clique with k = min(clique, dim_max+2) vertices, about C(n, k)
+    int k = std::min(x.exp.top_clique, x.dim_max + 2);
+    double lg = (std::lgamma(n + 1.0) - std::lgamma(k + 1.0) - std::lgamma(n - k + 1.0)) / std::log(2.0);
+    if (lg > 64.5) c.count("wide.cns_index_over64");
+    if (log2up(n) * k > 100) c.count("wide.bitfield_index_over100bits");
+  }
+  // third opinion: not for the 16-cliques (it would double the time of the slowest cases)
+  if (x.exp.complex_size <= 40000) run_pipeline(x, edges, INF); else c.count("pipeline.skipped_large_complex");
   if constexpr (Form::sparse) Form::routes(x, edges, nullptr, INF, r, true);
   else Form::routes(x, in, thr, r, true);
   finish_case<T, Form>(x, in);
@@ -554,7 +704,7 @@ template <class T> void huge_case(vh::Case& c) {
   c.log("huge sparse input: n=" + vh::str(n) + " active=" + vh::str(m) + " placement=" + placement + " labels=" + vh::vstr(label));
   c.log("active metric (entries above the threshold removed): " + act.show());
   c.log("threshold=" + vh::str(thr) + " dim_max=" + vh::str(x.dim_max) + " p=" + vh::str(x.p) + " value_type=" + ValName<T>::get() + " expected dispatcher class=" + dispatch_class(n, x.dim_max, x.p) + " entry_bits~" + vh::str(entry_bits));
-  c.count("gen." + act.gen); c.count("p." + vh::str(x.p)); c.count("huge.placement." + placement); c.count("huge.dim_max." + vh::str(x.dim_max));
+  c.count("gen." + act.gen); c.count("p." + pname(x.p)); c.count("huge.placement." + placement); c.count("huge.dim_max." + vh::str(x.dim_max));
   c.count(std::string("dispatch.") + dispatch_class(n, x.dim_max, x.p)); c.count("n.32769plus");
   c.count("complex.simplices", x.exp.complex_size);
   for (auto& iv : x.exp.dgm) c.count(std::string("bars.") + (iv.death == INF ? "essential" : "finite") + ".dim" + (iv.dim >= 3 ? std::string("3plus") : vh::str(iv.dim)));
@@ -565,7 +715,7 @@ template <class T> void huge_case(vh::Case& c) {
   if (over64 && x.p == 2 && top_bar) c.count("huge.entry_over64.p2_control.top_dim_bar");
   if (!over64 && x.p > 2 && top_bar) c.count("huge.entry_le64_control.odd_p.top_dim_bar");
   // third opinion on the active vertices alone
-  if (x.p <= 13) {
+  if (x.p < kPipelineBelow) {
     c.log("run gudhi Rips_complex->Simplex_tree->Persistent_cohomology pipeline on the active vertices");
     Diagram pl = gudhi_pipeline(act.D, INF, x.dim_max, (int)x.p);
     long pe = 0;
